@@ -6,10 +6,11 @@ import GoDebian.Drv.Version
 import GoDebian.Drv.Dependency
 import GoDebian.Drv.Deb822
 import GoDebian.Drv.Codec
+import GoDebian.Drv.Deb
 
 open GoDebian GoDebian.Drv
 
-def handlers : List Handler := [versionHandler, dependencyHandler, deb822Handler, codecHandler]
+def handlers : List Handler := [versionHandler, dependencyHandler, deb822Handler, codecHandler, debHandler]
 
 def dispatch (line : String) : String :=
   match (line.splitOn " ").filter (· ≠ "") with
